@@ -202,6 +202,23 @@ func (s *sess) srcBaseFor(base string, remote bool) (string, string) {
 	return filepath.Join(s.dir, base), ""
 }
 
+// respell returns another spelling of the same directory ("spell=" option): a "./" element, a
+// doubled separator, a "x/../" detour, a trailing separator.  The files are the same.
+func respell(dir string, how int64) string {
+	parent, leaf := filepath.Dir(dir), filepath.Base(dir)
+	switch how {
+	case 1:
+		return parent + "/./" + leaf
+	case 2:
+		return parent + "//" + leaf
+	case 3:
+		return parent + "/" + leaf + "/../" + leaf
+	case 4:
+		return dir + "/"
+	}
+	return dir
+}
+
 // globRel lists the case-relative names matched by base/pattern (the glob oracle of the model).
 func (s *sess) globRel(base, pattern string) []string {
 	m, _ := filepath.Glob(filepath.Join(s.dir, base, pattern))
@@ -250,6 +267,9 @@ func init() {
 		db, dr := baseRel(a["dest"])
 		remote := a.num("remote", 0) == 1
 		srcBase, prefix := s.srcBaseFor(sb, remote)
+		if !remote {
+			srcBase = respell(srcBase, a.num("spell", 0))
+		}
 		to, readOut := s.textOut(a.str("textout", "file"))
 		c := &cmd.CopyCommand{
 			SrcBase: srcBase, SrcRelPath: filepath.Join(prefix, sr), DestBase: filepath.Join(s.dir, db), DestRelPath: dr,
@@ -279,6 +299,9 @@ func init() {
 		destBase, dprefix := s.srcBaseFor(db, a.num("remotedest", 0) == 1)
 		if db == "ROOT" {
 			destBase, dprefix = s.root, ""
+		}
+		if !remote {
+			srcBase = respell(srcBase, a.num("spell", 0))
 		}
 		if dr != "" {
 			dr = filepath.Join(dprefix, dr)
@@ -327,6 +350,9 @@ func init() {
 		s.closeAll()
 		remote := a.num("remote", 0) == 1
 		srcBase, prefix := s.srcBaseFor(a["base"], remote)
+		if !remote {
+			srcBase = respell(srcBase, a.num("spell", 0))
+		}
 		to, readOut := s.textOut(a.str("textout", "file"))
 		c := &cmd.SumCommand{
 			SrcBase: srcBase, ItemPattern: filepath.Join(prefix, a["item"]), SrcPattern: a["src"],
@@ -347,6 +373,9 @@ func init() {
 		s.closeAll()
 		remote := a.num("remote", 0) == 1
 		srcBase, prefix := s.srcBaseFor(a["base"], remote)
+		if !remote {
+			srcBase = respell(srcBase, a.num("spell", 0))
+		}
 		to, readOut := s.textOut(a.str("textout", "file"))
 		c := &cmd.SumCopyCommand{
 			SrcBase: srcBase, DestBase: filepath.Join(s.dir, a["destbase"]), ItemPattern: filepath.Join(prefix, a["item"]), SrcPattern: a["src"],
@@ -369,6 +398,9 @@ func init() {
 		s.closeAll()
 		remote := a.num("remote", 0) == 1
 		srcBase, prefix := s.srcBaseFor(a["base"], remote)
+		if !remote {
+			srcBase = respell(srcBase, a.num("spell", 0))
+		}
 		to, readOut := s.textOut(a.str("textout", "file"))
 		c := &cmd.SumDiffCommand{
 			SrcBase: srcBase, DestBase: filepath.Join(s.dir, a["destbase"]), ItemPattern: filepath.Join(prefix, a["item"]), SrcPattern: a["src"],
